@@ -693,8 +693,16 @@ var $makeSlice = (typ, length, capacity = length) => {
 };
 
 var $structTypes = {};
+// Length-prefixed strings make the concatenated cache key unambiguous whatever characters names and tags contain.
+var $structKeyString = s => { return s.length + ":" + s; };
 var $structType = (pkgPath, fields) => {
-    var typeKey = $mapArray(fields, f => { return f.name + "," + f.typ.id + "," + f.tag; }).join("$");
+    // Non-exported field names of different packages are different, so the package is part of the identity
+    // exactly when there is a non-exported field.
+    var keyPkg = "";
+    fields.forEach(f => { if (!f.exported) { keyPkg = pkgPath; } });
+    var typeKey = $structKeyString(keyPkg) + $mapArray(fields, f => {
+        return $structKeyString(f.name) + f.typ.id + (f.embedded ? "E" : "e") + (f.exported ? "X" : "x") + $structKeyString(f.tag);
+    }).join("");
     var typ = $structTypes[typeKey];
     if (typ === undefined) {
         var string = "struct { " + $mapArray(fields, f => {
